@@ -57,66 +57,6 @@ theorem delImage_patch {r raw1 : Raw} {ch : List Nat} {B k : Nat}
     rw [hun b hb]
     exact ⟨delUnit_length raw1 B (k + 1) b (hl1 b hb), delUnit_bytes raw1 B k b (hl1 b hb) hk (by rw [hu1 b hb]; exact (hshape b hb).2.2)⟩
 
-theorem mem_find {α : Type} {p : α → Bool} {l : List α} {x : α} (h : l.find? p = some x) : x ∈ l ∧ p x = true :=
-  ⟨List.mem_of_find?_eq_some h, List.find?_some h⟩
-
-/-- what the reader calls the path of a file entry under the volume directory -/
-theorem baseRec_path_root (e : Bytes) : (baseRec e []).path = trimName e := by
-  unfold baseRec; simp
-
-theorem readFile_rec_fields (r : Raw) (total : Nat) (e pfx : Bytes) (f : FileRec) (h : Read.ProdosT.readFile r total e pfx = .ok f) :
-    f.path = (baseRec e pfx).path ∧ f.isDir = false ∧ f.locked = (baseRec e pfx).locked ∧ f.access = e.getD 30 0 ∧
-    f.ftype = e.getD 16 0 ∧ f.aux = le16 e 31 ∧ f.eof = le24 e 21 := by
-  unfold Read.ProdosT.readFile at h
-  simp only at h
-  split at h
-  · cases hu : r.unit (le16 e 0x11) "data-block" with
-    | error x => rw [hu] at h; cases h
-    | ok d =>
-      rw [hu] at h; simp only at h
-      split at h
-      · cases h
-      · injection h with h; subst h; exact ⟨rfl, rfl, rfl, rfl, rfl, rfl, rfl⟩
-  · split at h
-    · cases hu : r.unit (le16 e 0x11) "index-block" with
-      | error x => rw [hu] at h; cases h
-      | ok ib =>
-        rw [hu] at h; simp only at h
-        cases hd : readData r total (indexEntries ib 0) with
-        | error x => rw [hd] at h; cases h
-        | ok cs =>
-          rw [hd] at h; simp only at h
-          split at h
-          · cases h
-          · injection h with h; subst h; exact ⟨rfl, rfl, rfl, rfl, rfl, rfl, rfl⟩
-    · cases hu : r.unit (le16 e 0x11) "master-index-block" with
-      | error x => rw [hu] at h; cases h
-      | ok mb =>
-        rw [hu] at h; simp only at h
-        cases hm : List.mapM (treeIndex r total)
-            ((List.range 128).filterMap (fun k => if idxPtr mb k = 0 then none else some (k, idxPtr mb k))) with
-        | error x => rw [hm] at h; cases h
-        | ok parts =>
-          rw [hm] at h; simp only at h
-          split at h
-          · cases h
-          · injection h with h; subst h; exact ⟨rfl, rfl, rfl, rfl, rfl, rfl, rfl⟩
-
-theorem getD_lt_of_bytes (b : Bytes) (j : Nat) (h : ∀ x ∈ b, x < 256) : b.getD j 0 < 256 := by
-  simp only [List.getD_eq_getElem?_getD]
-  by_cases hj : j < b.length
-  · rw [List.getElem?_eq_getElem hj]; exact h _ (List.getElem_mem hj)
-  · rw [List.getElem?_eq_none (by omega)]; decide
-
-theorem entryAt_bytes (blk : Bytes) (k : Nat) (h : ∀ x ∈ blk, x < 256) : ∀ x ∈ entryAt blk k 39, x < 256 := by
-  intro x hx
-  unfold entryAt slice at hx
-  exact h x (List.mem_of_mem_drop (List.mem_of_mem_take hx))
-
-/-- the volume read after an operation: bounds, system blocks and label as before -/
-def nextVol (v : Vol) (total : Nat) (files : List FileRec) (free : List Nat) : Vol :=
-  { lo := 0, hi := total, sys := v.sys, files := files, freeUnits := free, label := v.label }
-
 /-- **`delete` succeeds**: the search finds the file in slot `k + 1` of block `B`, its destroy bit is set -/
 theorem delete_ok {d : Disk} (hs : SInv d) (path nm : Bytes)
     (hnodes : normalizePath (volName (hdrOf d.raw)) path = .ok [volName (hdrOf d.raw), nm]) (hnm : nm ≠ [])
@@ -127,7 +67,7 @@ theorem delete_ok {d : Disk} (hs : SInv d) (path nm : Bytes)
     (hacc : Ent.access x.1 &&& 0x80 ≠ 0) :
     ∃ d3 d4 v4, delete path repaired d = (.ok (), d3) ∧ d3.flush = (.ok (), d4) ∧ SInv d4 ∧
       Read.ProdosT.read d4.raw = .ok v4 ∧ stepOk { eofRule := id, keepsType := true, keepsAux := true, hasLock := true } v
-        (.delete (upper nm)) true v4 = true := by
+        (.delete (upper nm)) true v4 = true ∧ v4.label = v.label := by
   obtain ⟨v', fsL', ch', hr', ht', c, hts, heff, hbsz, hbok⟩ := hs.ctx
   have e1 : v' = v := by rw [hr] at hr'; injection hr' with h; exact h.symm
   subst e1
@@ -327,30 +267,7 @@ theorem delete_ok {d : Disk} (hs : SInv d) (path nm : Bytes)
     have hisz : i < (delImage raw1 B (k + 1)).units.size := by rw [delImage_size, hsz1]; exact c.st.exist i hi
     exact (hshape3.unit hisz).1
   obtain ⟨d4, hfl4, hraw4, hs4⟩ := close_op hs _ _ n3 hbs3 hlen3 hinv4 hbm4 hsz4
-  exact ⟨d3, d4, _, hdel, hfl4, hs4, by rw [hraw4]; exact hrd4, hstep⟩
-
-/-- in a volume without sub-directories no slot matches a search for a sub-directory entry -/
-theorem no_dir_hit {r : Raw} {ch : List Nat} (hroot : Root r ch) (nm : Bytes) (hl : nm.length ≤ 15) :
-    (dirSlots r 2 ch).find? (isHit [stSubDirEntry] nm) = none := by
-  rw [List.find?_eq_none]
-  intro x hx hhit
-  unfold isHit at hhit
-  simp only [Bool.and_eq_true] at hhit
-  obtain ⟨hact, hm⟩ := hhit
-  unfold isFileMatch at hm
-  simp only [List.any_cons, List.any_nil, Bool.or_false, Bool.and_eq_true, beq_iff_eq] at hm
-  have hn : nibsOf stSubDirEntry nm = 0xD * 16 + nm.length := by
-    unfold nibsOf stSubDirEntry; omega
-  have he0 : x.1.getD 0 0 = 0xD * 16 + nm.length := by
-    have := hm.1; rw [hn] at this; exact this.symm
-  rcases hroot.slots x hx with h0 | ⟨hst, _⟩
-  · rw [h0] at he0; omega
-  · rw [he0] at hst; omega
-
-theorem attempt_err {α : Type} (m : M α) (d d' : Disk) (e : Err) (h : m d = (.error e, d')) (he : e ≠ .panic) :
-    M.attempt m d = (.ok none, d') := by
-  unfold M.attempt; rw [h]
-  cases e <;> first | rfl | exact absurd rfl he
+  exact ⟨d3, d4, _, hdel, hfl4, hs4, by rw [hraw4]; exact hrd4, hstep, rfl⟩
 
 /-- `delete` of a name the search does not find (or an invalid name) answers `PATH NOT FOUND` and changes nothing -/
 theorem delete_notfound {d : Disk} {bm cnt : Nat} {ch : List Nat} (c : RootCtx d bm cnt ch) (hroot : Root d.raw ch) (path nm : Bytes)
@@ -434,25 +351,25 @@ theorem delete_refines {d : Disk} (hs : SInv d) (path nm : Bytes)
     ∃ res d1 d4 v v4, delete path repaired d = (res, d1) ∧ d1.flush = (.ok (), d4) ∧ SInv d4 ∧
       Read.ProdosT.read d.raw = .ok v ∧ Read.ProdosT.read d4.raw = .ok v4 ∧
       stepOk { eofRule := id, keepsType := true, keepsAux := true, hasLock := true } v (.delete (upper nm))
-        (match res with | .ok _ => true | .error _ => false) v4 = true := by
+        (match res with | .ok _ => true | .error _ => false) v4 = true ∧ v4.label = v.label := by
   obtain ⟨v, fsL, ch, hr, ht, c, hts, heff, hbsz, hbok⟩ := hs.ctx
   obtain ⟨hw, hn, hroot, hvv, hc, hic, hnd, hchf, h2, h6, h3, hbt, hstv⟩ := root_chain_facts hs.inv v fsL ch hr ht
   have hrefuse : ∀ e, delete path repaired d = (.error e, d) →
       ∃ res d1 d4 v v4, delete path repaired d = (res, d1) ∧ d1.flush = (.ok (), d4) ∧ SInv d4 ∧
         Read.ProdosT.read d.raw = .ok v ∧ Read.ProdosT.read d4.raw = .ok v4 ∧
         stepOk { eofRule := id, keepsType := true, keepsAux := true, hasLock := true } v (.delete (upper nm))
-          (match res with | .ok _ => true | .error _ => false) v4 = true := by
+          (match res with | .ok _ => true | .error _ => false) v4 = true ∧ v4.label = v.label := by
     intro e he
     obtain ⟨d4, hf4, hraw4, hs4⟩ := refused_same hs
-    exact ⟨.error e, d, d4, v, v, he, hf4, hs4, hr, by rw [hraw4]; exact hr, stepOk_refused_same hw _⟩
+    exact ⟨.error e, d, d4, v, v, he, hf4, hs4, hr, by rw [hraw4]; exact hr, stepOk_refused_same hw _, rfl⟩
   by_cases hv : isNameValid nm = true
   · cases hx : (dirSlots d.raw 2 ch).find? (isHit fileTypes nm) with
     | none => exact hrefuse _ (delete_notfound c hroot path nm hnodes hnm hnv (Or.inr hx))
     | some x =>
       by_cases hacc : Ent.access x.1 &&& 0x80 = 0
       · exact hrefuse _ (delete_protected c path nm hnodes hnm hv x hx hacc)
-      · obtain ⟨d3, d4, v4, hdel, hf4, hs4, hr4, hstep⟩ := delete_ok hs path nm hnodes hnm hv x v fsL ch hr ht hx hacc
-        exact ⟨.ok (), d3, d4, v, v4, hdel, hf4, hs4, hr, hr4, hstep⟩
+      · obtain ⟨d3, d4, v4, hdel, hf4, hs4, hr4, hstep, hlab⟩ := delete_ok hs path nm hnodes hnm hv x v fsL ch hr ht hx hacc
+        exact ⟨.ok (), d3, d4, v, v4, hdel, hf4, hs4, hr, hr4, hstep, hlab⟩
   · have hv' : isNameValid nm = false := by simpa using hv
     exact hrefuse _ (delete_notfound c hroot path nm hnodes hnm hnv (Or.inl hv'))
 
